@@ -11,9 +11,11 @@ RULE = ("contract monitors (tie (d)): every list of 2x2 operators returned by UC
         "with d = conj(diagonal)); every _apply_diagonal call must return parent * conj(diagonal)[bit::2] (the next children of "
         "C12_levels_target); direct evaluation "
         "(harness/props/c12_eval.py): column t and columns < t of the operator. distinct = distinct (vector, t, preserve); non-trivial = n >= 2")
-ASSUMPTIONS = ["the preserve option (the separately applied gate does not commute with the carried diagonal in general) and UCGE's multiplexer "
-               "simplification are evaluated, not proved; the returned circuit is Qiskit's inverse() of the proved levels",
-               "Qiskit's UCGate synthesis"]
+ASSUMPTIONS = ["the preserve clause is proved from two premises on the matrices of the run (identity where the upper qubits spell a number below the "
+               "target's, diagonal pulled-out gate where the target bit is 1), which the preserve monitor checks on every run; UCGE's multiplexer "
+               "simplification is evaluated, not proved (inputs with nearly repeated blocks included); the returned circuit is Qiskit's inverse() of the proved levels",
+               "Qiskit's UCGate synthesis (it does not implement its own gate list on nearly equal gates: two known findings, diagnosed by re-running the "
+               "construction with ideal multiplexers)"]
 TRUSTED = ["harness/monitors.py"]
 
 
